@@ -78,7 +78,7 @@ func runC32Counting(c *Ctx) {
 		nGo += g
 		nInc += i
 		if g != i {
-			r.Viol("R-LAUNCH-COUNTED", "hedge|block-b"+itoa(b.Index), u.Pos(b.Instrs[0].Pos()), itoa(g)+" hedge launch(es) but "+itoa(i)+" increment(s) of the in-flight count in the same straight-line block")
+			r.Viol("R-LAUNCH-COUNTED", "hedge|launch-block", u.Pos(b.Instrs[0].Pos()), itoa(g)+" hedge launch(es) but "+itoa(i)+" increment(s) of the in-flight count in the same straight-line block")
 		}
 	}
 	// any other write to expected inside the hedging closure breaks the pairing
